@@ -1,10 +1,15 @@
 """C06 — %include behaves as textual inclusion of a self-contained fragment"""
+import re
+
 from .. import cfgrun, cfgstream, core, cutter
 
 RULE = ("valid and invalid texts of the C01/C05 corpus (with %define/uses mixed in), 1..3 balanced line ranges cut out "
         "into fragments (nested cuts allowed) placed in the same / a sub / the parent directory of the includer on a real "
         "scratch tree, or reached through a %define-d absolute directory or URL, or the same fragment reached twice "
-        "(twice in one file, through two wrappers = a diamond); the cut text loaded by absolute path / relative path / file: URL / open file object (opened by absolute or relative "
+        "(twice in one file, through two wrappers = a diamond); in a share of the texts some lines carry, in the MIDDLE (inside a value, "
+        "as the blank between key and value, inside a comment), a character that other line-splitting conventions take for a line "
+        "end (lone CR, VT, FF, FS/GS/RS, NEL, LS, PS) - a complete line ends at '\\n' only, so the files are written untranslated "
+        "and the inlined text is the same list of lines; the cut text loaded by absolute path / relative path / file: URL / open file object (opened by absolute or relative "
         "path) vs loadConfigFile(inline text); plus unbalanced cuts which must be "
         "rejected; non-trivial = at least one cut applied; distinct by (schema, text, cut)")
 
@@ -35,6 +40,58 @@ def add_defines(rng, lines):
     return out
 
 
+# characters that str.splitlines() / universal-newline readers take for a line end.  The configuration grammar does not: a line
+# ends at '\n' and nowhere else, so in the middle of a line they are ordinary text (white space to strip()/split(), else data)
+MIDLINE = ["\r"] * 5 + ["\x0b", "\x0c", "\x1c", "\x1d", "\x1e", "\x85", "\u2028", "\u2029"]
+# inside VALUES the three information separators are left out: CPython's int() / float() do not strip U+001C..U+001F although
+# str.strip() does, while the model's number parser strips everything str.isspace() holds for (a matter of the datatype model,
+# C09's domain - '1\x1ch' as a time-interval is refused by the library and accepted by the model - not of inclusion); they still
+# occur next to the blank between key and value and in comments
+MIDLINE_IN_VALUE = [c for c in MIDLINE if c not in "\x1c\x1d\x1e"]
+_KV = re.compile(r"^(\s*)([^\s<%#]\S*)([ \t]+)(\S(?:.*\S)?)(\s*)$")
+
+
+def add_midline_line_ends(rng, lines, p=0.35, kinds=("value", "value", "separator", "comment", "comment-line")):
+    """in a share p of the texts: one or two lines get a character of MIDLINE in the middle - inside the value of a key, in place
+    of (or next to) the blank between key and value, inside a comment that is already there, or in a new comment line whose tail
+    would be a key / a section bracket / a directive if the line were split there.  "Complete lines" are what '\n' ends: the text
+    with these lines moved into a fragment (a file holding exactly these characters) must load like the text holding them inline.
+    Returns (lines, [what was put where])"""
+    if not lines or rng.random() >= p:
+        return lines, []
+    out = list(lines)
+    marks = []
+    for _ in range(rng.choice([1, 1, 2])):
+        ch = rng.choice(MIDLINE)
+        kind = rng.choice(kinds)
+        kvs = [i for i, l in enumerate(out) if _KV.match(l)]
+        if kind in ("value", "separator") and not kvs:
+            kind = "comment"
+        if kind == "value":
+            ch = rng.choice(MIDLINE_IN_VALUE)
+            i = rng.choice(kvs)
+            ind, key, sep, val, tail = _KV.match(out[i]).groups()
+            at = rng.randint(1, len(val) - 1) if len(val) > 1 else rng.choice([0, 1])
+            out[i] = ind + key + sep + val[:at] + rng.choice([ch, ch, " " + ch, ch + " "]) + val[at:] + tail
+        elif kind == "separator":
+            i = rng.choice(kvs)
+            ind, key, sep, val, tail = _KV.match(out[i]).groups()
+            out[i] = ind + key + rng.choice([ch, ch, sep + ch, ch + sep]) + val + tail
+        else:
+            cms = [i for i, l in enumerate(out) if l.strip().startswith("#")]
+            tailtext = rng.choice(["k v", "more", "</x>", "<x>", "%define zv1 q", "# still the comment"])
+            if kind == "comment" and cms:
+                i = rng.choice(cms)
+                out[i] = out[i].rstrip() + " " + ch + tailtext
+            else:
+                kind = "comment-line"
+                i = rng.randint(0, len(out))
+                near = out[min(i, len(out) - 1)]
+                out.insert(i, near[: len(near) - len(near.lstrip(" \t"))] + "# note" + rng.choice(["", " "]) + ch + tailtext)
+        marks.append([kind, "U+%04X" % ord(ch), i])
+    return out, marks
+
+
 def run(ctx):
     obligations, discharged, names = core.standard_prelude(ctx, ["ZCV.Props.C06"])
     n_s, n_t = (600, 30) if ctx.thorough() else (60, 14)
@@ -43,6 +100,7 @@ def run(ctx):
     inl, cuts, unb = [], [], []
     for c in base:
         c.lines = add_defines(rng, c.lines)
+        c.lines, midline = add_midline_line_ends(rng, c.lines)
         k = rng.random()
         special = None
         if k < 0.15:
@@ -67,6 +125,10 @@ def run(ctx):
             # escapes any more (out of contract, not compared)
             d.meta["entry"] = "fileobj-abs"
         ctx.count("entry:" + d.meta["entry"])
+        if midline:
+            d.meta["midline"] = midline
+            for kind, _, _ in midline:
+                ctx.count("mid-line-line-end:" + kind)
         inl.append(c)
         cuts.append(d)
         for _, _, where, _, _ in placements:
@@ -121,7 +183,8 @@ def run(ctx):
         if not same_outcome(a, b):
             ctx.violate("moving balanced lines into an %%include changed the outcome: inline %s, with include %s" % (a.out[:2], b.out[:5]),
                         dict(b.replay(), inline=a.lines, inline_outcome=a.out, include_outcome=b.out,
-                             placements=b.meta["placements"]),
+                             placements=b.meta["placements"], entry=b.meta["entry"],
+                             mid_line_line_end_characters=b.meta.get("midline", [])),
                         signature="C06:%s->%s" % (a.out[0], b.out[0]))
     for u in unb:
         ctx.count("unbalanced:" + u.out[0])
